@@ -32,6 +32,16 @@ from torcheval.metrics.metric import TState
 _logger: logging.Logger = logging.getLogger(__name__)
 
 
+def _to_global_rank(group: dist.ProcessGroup | None, group_rank: int) -> int:
+    """
+    torch.distributed addresses the root of a collective (``src`` / ``dst``) by its
+    global rank, while this module identifies ranks relative to ``group``.
+    """
+    if group is None:
+        return group_rank
+    return dist.get_global_rank(group, group_rank)
+
+
 def _simple_send_tensors(
     tensor: Tensor,
     world_size: int,
@@ -225,7 +235,11 @@ def _sync_dtype_and_shape(
     else:
         object_list = [None]
 
-    dist.broadcast_object_list(object_list, src=rank_with_dtype, group=process_group)
+    dist.broadcast_object_list(
+        object_list,
+        src=_to_global_rank(process_group, rank_with_dtype),
+        group=process_group,
+    )
     dtype, shape = object_list[0]
     return dtype, shape
 
